@@ -413,6 +413,15 @@ def relation_writers(ctx, rep, rule):
     sites = relation_write_sites(p)
     rep.need(rule, len(sites), 4, "constructs writing a `required` set")
     for f, n, what in sites:
+        if isinstance(n, ast.Assign) and any(_is_rel(t, 'required') for t in n.targets):
+            v = n.value
+            fresh = isinstance(v, (ast.Set, ast.SetComp, ast.BinOp)) or (
+                isinstance(v, ast.Call) and ((dotted(v.func) or '').split('.')[-1] in (
+                    'set', 'BestSet', 'OrderedSet', 'frozenset', 'copy', 'union', 'difference', 'intersection')))
+            rep.check(fresh, rule, "%s:%d a job's requirement set is its own" % (f.module.relpath, n.lineno), f.qualname,
+                      "`%s` stores an object that something else may hold" % src(n)[:80],
+                      "two jobs (or a job and its caller) share one `required` set: requires(), sanitize() or "
+                      "bypass_and_remove() on one of them silently edits the requirements of the other")
         rep.check(ok_func(f), rule, "%s:%d write of the requirement relation by a documented writer"
                   % (f.module.relpath, n.lineno), f.qualname,
                   "%s in %s, which is not one of %s (nor a private helper of theirs)"
@@ -432,6 +441,28 @@ class KeepModel(GraphModel):
         w = self.watched
         return any(T.contains(t, w) for t in terms if isinstance(t, tuple))
 
+    def _verbatim(self, t, depth=0):
+        """the watched value itself, or a plain container / copy of it: not the result of a function of the package
+        applied to it (which may drop part of it: `_flatten()` skips the collections it is not meant for)"""
+        w = self.watched
+        if t == w:
+            return True
+        if depth > 4 or not isinstance(t, tuple) or not T.contains(t, w):
+            return False
+        if t[0] in ('tuple', 'list', 'set'):
+            return all(self._verbatim(x, depth + 1) or not T.contains(x, w) for x in t[1])
+        if t[0] == 'star':
+            return self._verbatim(t[1], depth + 1)
+        if t[0] == 'call' and t[1] in ('list', 'tuple', 'set', 'frozenset', 'sorted') and len(t[2]) == 1:
+            return self._verbatim(t[2][0], depth + 1)
+        if t[0] == 'binop' and t[1] == 'Add':
+            return all(self._verbatim(x, depth + 1) or not T.contains(x, w) for x in t[2:4])
+        if t[0] in ('union', 'single', 'when'):
+            return True
+        if t[0] == 'ifexp':
+            return all(self._verbatim(x, depth + 1) or not T.contains(x, w) for x in t[2:4])
+        return False
+
     def on_call(self, ip, node, fterm, args, kws, st, fr):
         hit = None
         if fterm[0] == 'attr' and self._mentions(list(args) + [v for _k, v in kws]):
@@ -439,7 +470,10 @@ class KeepModel(GraphModel):
                 hit = ('handed', fterm[1])
             elif fterm[2] in ('append', 'extend', 'add', 'update', 'insert') and fterm[1][0] == 'attr' \
                     and fterm[1][1] == T.SELF:
-                hit = ('kept', fterm[1][2])
+                if all(self._verbatim(a) for a in list(args) + [v for _k, v in kws] if T.contains(a, self.watched)):
+                    hit = ('kept', fterm[1][2])
+                else:
+                    self.ev(ip, 'KEPT_TRANSFORMED', node, st, fr, attr=fterm[1][2], args=args)
         res = GraphModel.on_call(self, ip, node, fterm, args, kws, st, fr)
         if hit is None:
             return res
@@ -464,7 +498,9 @@ class KeepModel(GraphModel):
 
     def on_store_attr(self, ip, node, obj, attr, val, st, fr, aug=None):
         r = GraphModel.on_store_attr(self, ip, node, obj, attr, val, st, fr, aug)
-        if obj == T.SELF and T.contains(val, self.watched):
+        if obj == T.SELF and T.contains(val, self.watched) and not self._verbatim(val):
+            self.ev(ip, 'KEPT_TRANSFORMED', node, st, fr, attr=attr, args=(val,))
+        elif obj == T.SELF and T.contains(val, self.watched):
             base = r if r is not None else ip.default_store_attr(obj, attr, st)
             if isinstance(base, list):
                 return [b.set(consumed=('kept', attr)) for b in base]
@@ -510,6 +546,12 @@ def sequence_keeps_requirements(ctx, rep, rule):
                       % (f.qualname, pname, [(T.show(k, 3), v) for k, v in st.facts.items()][:4]),
                       "a requirement given to a sequence that holds no job yet is silently dropped: the job that "
                       "becomes first later (append) does not get it", trace(st))
+        for e in an.events('KEPT_TRANSFORMED'):
+            rep.fail(rule, "%s what is kept is what was given" % e.where, f.qualname,
+                     "`%s` keeps %s" % (src(stmt_of(e.node)), ", ".join(T.show(a, 3)[:60] for a in e.data['args'])),
+                     "the requirements given to a still-empty sequence go through a function that may drop part of "
+                     "them (a list, a tuple or a set of jobs is skipped by the flattening of sequences): the job that "
+                     "becomes first later starts before them", trace(e.st))
     rep.need(rule, nexits, 3, "exits of the sequence constructor / requires")
     # what is kept must be handed over by append() when the first jobs arrive
     app = seq.methods.get('append')
@@ -634,10 +676,13 @@ def no_live_iteration_while_removing(ctx, rep, rule, attr='required'):
 
     def body_nodes(loop):
         if isinstance(loop, (ast.For, ast.AsyncFor)):
-            for b in loop.body + loop.orelse:
-                yield b
-                for n in walk_local(b):
-                    yield n
+            stack = list(loop.body + loop.orelse)
+            while stack:
+                n = stack.pop()
+                if isinstance(n, (ast.FunctionDef, ast.AsyncFunctionDef, ast.ClassDef, ast.Lambda)):
+                    continue
+                yield n
+                stack.extend(ast.iter_child_nodes(n))
         else:
             comp, gi = loop
             parts = [comp.elt] if not isinstance(comp, ast.DictComp) else [comp.key, comp.value]
@@ -808,3 +853,45 @@ def no_live_iteration_while_removing(ctx, rep, rule, attr='required'):
                       "job.requires(job.required, remove=True) changes the set it iterates: RuntimeError, and the "
                       "removal is left half done instead of removing exactly the named requirements")
     rep.need(rule, live, 1, "loops of requires() whose body can remove requirements")
+
+
+# ======================================================= who may ask for requirements to be dropped
+PRUNERS = ('sanitize', 'bypass_and_remove')
+PRUNER_CALLERS = {
+    'sanitize': "recursion into nested schedulers",
+    'keep_only': "documented: narrows the member set, then sanitizes (C18)",
+    'keep_only_between': "documented: goes through keep_only (C18)",
+    'bypass_and_remove': "the surgery itself",
+}
+
+
+def pruners_called_only_by(ctx, rep, rule):
+    """the operations that delete requirement edges wholesale - sanitize(), bypass_and_remove() - are run by the
+    user, or by the graph surgery that documents it; the registration API (add / update / remove, sequences,
+    requires) and the run never call them: the edges the construction API built stay as built"""
+    from ..effects import callees_by_name
+    r, p = ctx.roles, ctx.prog
+    n = 0
+    for g in p.funcs.values():
+        for c in walk_local(g.node):
+            if not (isinstance(c, ast.Call) and isinstance(c.func, ast.Attribute) and c.func.attr in PRUNERS):
+                continue
+            if not any(f.cls is not None and r.sched in f.cls.mro for f in callees_by_name(p, g, c)):
+                continue
+            n += 1
+            owner = g
+            while owner.parent is not None:
+                owner = owner.parent
+            ok = owner.name in PRUNER_CALLERS
+            if not ok and owner.name.startswith('_') and not owner.name.startswith('__'):
+                # a private helper: judged by who uses it
+                from .common import only_used_by
+                allowed = {f.qualname for f in p.funcs.values() if f.name in PRUNER_CALLERS}
+                ok = only_used_by(ctx, owner, allowed)
+            rep.check(ok, rule, "%s:%d %s() is called by the graph surgery only" % (g.module.relpath, c.lineno, c.func.attr),
+                      g.qualname, "`%s` in %s, which is not one of %s (nor a private helper of theirs)"
+                      % (src(c), g.qualname, sorted(PRUNER_CALLERS)),
+                      "an operation documented to register or un-register jobs (or the run itself) deletes requirement "
+                      "edges behind the caller's back: `s.remove(b); s.add(b)` loses every edge onto b, edges towards "
+                      "jobs not registered yet disappear")
+    rep.need(rule, n, 2, "calls of sanitize() / bypass_and_remove() in the package")
